@@ -13,8 +13,15 @@ class SetCfg:
     def defs(self):
         return [f'CFG_IMPL={0 if self.impl == "flat" else 1}', f'CFG_N={self.n}', f'CFG_BACK={0 if self.back == "std" else 1}',
                 f'CFG_UVEC={UVEC[self.uvec]}', f'CFG_CMP={CMP[self.cmp]}', f'CFG_CAT={0 if self.cat == "int" else 2}']
+    def claims_tr(self):
+        """expected value of the container's trivially_relocatable trait (conjunction of its parts)"""
+        if self.cat != 'int':
+            return False
+        if self.impl == 'flat':
+            return self.uvec != 'std'
+        return self.back == 'flat'
     def cfgline(self):
-        return f'cfg kind=set impl={self.impl} n={self.n} cmp={self.cmp} pool={self.pool}'
+        return f'cfg kind=set impl={self.impl} n={self.n} cmp={self.cmp} pool={self.pool} tr={1 if self.claims_tr() else 0}'
 
 def build(cfgs):
     jobs = [dict(src='set_harness.cpp', defs=c.defs(), name='set_' + c.name()) for c in cfgs]
